@@ -371,6 +371,12 @@ def main(tier):
             cfg = dict(width=r.choice([1, 20, 40, 79, 200]), indent=r.choice([2, 4]))
             if r.random() < 0.2:
                 cfg['ribbon_width'] = r.choice([10, 200])
+            # the settings that are not about line breaks must not change what is rebuilt either: sorting (only
+            # plain dict order may change, and dicts compare without order) and a limit no container reaches
+            if r.random() < 0.3:
+                cfg['sort_dict_keys'] = True
+            if r.random() < 0.1:
+                cfg['max_seq_len'] = r.choice([None, 10 ** 6])
             vals.append((v, cfg))
         reqs, impl = [], []
         for v, cfg in vals:
